@@ -134,14 +134,24 @@ func VerifK24bInvariantPermute() {
 	L := vt.ParamInt("str", 2)
 	n := vt.Choose("n", vt.ParamInt("tuples", 3)-1) + 2
 	objs := keys.VerifPbKeys("obj", n, L)
+	// fixed-length symbolic strings: permutation invariance does not depend on lengths, and concrete
+	// lengths keep every offset of the encodings concrete
+	fixed := func(name string) string {
+		s := vt.String(name, L)
+		vt.Assume(len(s) == L)
+		return s[:L]
+	}
 	var ts []keys.VerifK24Tuple
 	for i := 0; i < n; i++ {
-		t := keys.VerifK24GenTuple("t"+string(rune('0'+i)), 0, []int{1}, L)
-		t.Obj = objs[i]
+		p := "t" + string(rune('0'+i))
+		t := keys.VerifK24Tuple{Obj: objs[i], Rel: fixed(p + "r"), User: fixed(p + "u")}
+		if vt.ForkBool(p + "cond") {
+			t.HasCond, t.Cond = true, fixed(p+"c")
+		}
 		ts = append(ts, t)
 	}
 	fk := keys.VerifPbKeys("f", 2, L)
-	v0, v1 := structpb.NewStringValue(vt.String("v0", L)), structpb.NewBoolValue(vt.Bool("v1"))
+	v0, v1 := structpb.NewStringValue(fixed("v0")), structpb.NewBoolValue(vt.Bool("v1"))
 	fwd := &structpb.Struct{Fields: map[string]*structpb.Value{}}
 	rev := &structpb.Struct{Fields: map[string]*structpb.Value{}}
 	fwd.Fields[fk[0]], fwd.Fields[fk[1]] = v0, v1
@@ -155,7 +165,7 @@ func VerifK24bInvariantPermute() {
 	if n == 3 && vt.ForkBool("rotate") {
 		kb = []*openfgav1.TupleKey{ts[1].Key(), ts[2].Key(), ts[0].Key()}
 	}
-	store, model := vt.String("store", L), vt.String("model", L)
+	store, model := fixed("store"), fixed("model")
 	pa := verifK24Invariant(store, model, fwd, ka)
 	pb := verifK24Invariant(store, model, rev, kb)
 	vt.Reach("built")
